@@ -391,7 +391,7 @@ theorem applyAll_nodupIdx (X : List Write) : ∀ st : Store, st.NodupIdx → (st
 
 theorem step_nodupIdx (dag : Dag) {s : St} (h : Inv s) (op : Op) (hn : s.store.NodupIdx) :
     (step dag s op).1.store.NodupIdx := by
-  rw [(good_step dag h op).1.tr.1]
+  rw [(good_step dag h op).tr.1]
   exact applyAll_nodupIdx _ _ hn
 
 theorem length_le_one_of_all_eq {α : Type} (l : List α) (hn : l.Nodup) (he : ∀ a ∈ l, ∀ b ∈ l, a = b) :
